@@ -1,7 +1,98 @@
-(** C43 — theorems (glue only). *)
-From Akita Require Import Lib.Base Lib.Json C43.Model.
+(** C43 — Spec/State validation admits only losslessly serializable types: theorems. *)
+From Akita Require Import Lib.Base Lib.Json Lib.JsonProofs C43.Model C43.Exec C43.Proofs.
 Local Open Scope N_scope.
 
-Theorem c43_skeleton : validate_state TBool = false.
-Proof. reflexivity. Qed.
-Print Assumptions c43_skeleton.
+(** A type that ValidateSpec / ValidateState accepts and that is "plain" (no unexported
+    non-skipped field, no omitempty on a slice or map, no two fields sharing a JSON name,
+    no ,string option, custom marshalers only the hand-modelled lossless ones) returns every
+    well-formed value unchanged from the checkpoint JSON. *)
+Theorem c43_sound_on_plain :
+  forall (state : bool) (t : ty),
+    validate state t = true -> plain t = true ->
+    forall v, wf t v = true -> roundtrip t v = Some v.
+Proof. exact sound_on_plain. Qed.
+Print Assumptions c43_sound_on_plain.
+
+(** ... and such a type is [lossless] (the decidable check used for the library types). *)
+Theorem c43_accepted_plain_is_lossless :
+  forall (state : bool) (t : ty), validate state t = true -> plain t = true -> lossless t = true.
+Proof. intros state t Hv Hp. exact (accepted_plain_lossless t true state false Hv Hp). Qed.
+Print Assumptions c43_accepted_plain_is_lossless.
+
+(** A struct whose state is only in unexported fields, without custom JSON, is rejected —
+    at the top, as a field, and as a slice element of a State. *)
+Theorem c43_rejects_hidden :
+  forall (state : bool) (t : ty), hidden_only t = true -> validate state t = false.
+Proof. intros state t H. exact (rejects_hidden true state t H). Qed.
+Print Assumptions c43_rejects_hidden.
+
+Theorem c43_rejects_hidden_nested :
+  forall (state : bool) fs fi h,
+    In (fi, h) fs -> f_skip fi = false -> hidden_only h = true ->
+    validate state (TStruct fs) = false.
+Proof. intros state fs fi h. exact (rejects_hidden_nested true state fs fi h). Qed.
+Print Assumptions c43_rejects_hidden_nested.
+
+Theorem c43_rejects_hidden_in_slice :
+  forall (state : bool) fs fi h,
+    In (fi, TSlice h) fs -> f_skip fi = false -> hidden_only h = true ->
+    validate state (TStruct fs) = false.
+Proof. intros state fs fi h. exact (rejects_hidden_in_slice true state fs fi h). Qed.
+Print Assumptions c43_rejects_hidden_in_slice.
+
+(** pointers, interfaces, channels, functions and the other unsupported kinds are rejected
+    in any field that is not tagged json:"-"; Specs reject nested structs *)
+Theorem c43_rejects_disallowed_kind :
+  forall (state : bool) fs fi k,
+    In (fi, TOther k) fs -> f_skip fi = false -> validate state (TStruct fs) = false.
+Proof. intros state fs fi k. exact (rejects_other true state fs fi k). Qed.
+Print Assumptions c43_rejects_disallowed_kind.
+
+Theorem c43_spec_rejects_nested_struct :
+  forall fs fi gs, In (fi, TStruct gs) fs -> f_skip fi = false -> validate_spec (TStruct fs) = false.
+Proof. exact spec_rejects_nested_struct. Qed.
+Print Assumptions c43_spec_rejects_nested_struct.
+
+(** The full statement "every accepted type round-trips every value" is FALSE of the
+    faithful model (and of the code): three accepted-yet-lossy shapes. *)
+Theorem c43_mixed_fields_refuted :
+  exists t v, validate_state t = true /\ validate_spec t = true /\ wf t v = true /\
+              roundtrip t v <> Some v.
+Proof.
+  exists t_mixed, v_mixed. destruct mixed_fields_gap as (A & B & C & D).
+  repeat split; try assumption. rewrite D. discriminate.
+Qed.
+Print Assumptions c43_mixed_fields_refuted.
+
+Theorem c43_duplicate_name_refuted :
+  exists t v, validate_state t = true /\ validate_spec t = true /\ wf t v = true /\
+              roundtrip t v <> Some v.
+Proof.
+  exists t_dup, v_dup. destruct duplicate_name_gap as (A & B & C & _ & D).
+  repeat split; try assumption. rewrite D. discriminate.
+Qed.
+Print Assumptions c43_duplicate_name_refuted.
+
+Theorem c43_omitempty_refuted :
+  exists t v, validate_state t = true /\ validate_spec t = true /\ wf t v = true /\
+              roundtrip t v <> Some v.
+Proof.
+  exists t_omit, v_omit. destruct omitempty_gap as (A & B & C & D).
+  repeat split; try assumption. rewrite D. discriminate.
+Qed.
+Print Assumptions c43_omitempty_refuted.
+
+(** link between the two evaluators of Exec.v: on a plain type, agreement of the
+    implementation with the model implies the property on the observed behaviour *)
+Theorem c43_model_agreement_implies_property :
+  forall c, plain (c_ty c) = true -> check_case c = true -> holds_on c = true.
+Proof. exact model_agreement_implies_property. Qed.
+Print Assumptions c43_model_agreement_implies_property.
+
+Example c43_sound_on_plain_nonvacuous :
+  validate_state t_good = true /\ plain t_good = true /\ wf t_good v_good = true /\
+  roundtrip t_good v_good = Some v_good.
+Proof. exact good_example. Qed.
+
+Example c43_rejects_hidden_nonvacuous : hidden_only t_hidden = true /\ validate_state t_hidden = false.
+Proof. exact hidden_example. Qed.
